@@ -5,6 +5,7 @@ REFINEMENT  "The layers of the model are one system" (DESIGN section 6)
       ^  R1   absCol                 index layer ⊑ logical table of a plain hash column
   P2 index    Pdb.Index.Col = pages + ABSTRACT value store (C09, C14, page search C19)
       ^  R2   absVT, AStore, RepL    byte-level value table ⊑ abstract value store of one tier
+                                     (cells at head slots, chains = `Tier.chains`)
   P2/P3       Pdb.ValueTable.VT      byte-level slots, entry formats, chains (C06)
       R3      the PHYSICAL column `PCol` (pages + byte-level tables, Pdb/Model/Refine.lean) = Pdb.spec
       R4      one transaction: physical planning + enactment = `applyRec` of the logical record
@@ -14,22 +15,24 @@ WHAT IS PROVED
                            C09 fixes `cfg.exact`, `cfg.growOnMove`, 16 ≤ bits ≤ 49, keys in `U` and
                            tiers < 256 `ActOK`, physical limits `AllBounded`), run returns `.ok`.
   R1_step_refines          full.  The commuting square of one action (maintenance = stutter).
-  R2_valuetable_refines_store   full for single-slot tables (every tier of `SIZES`): reads,
-                           allocation order, insert / replace in place / remove commute with `absVT`,
-                           C06's `SlotInv` yields the index model's slot invariant (`AStoreInv`).
-                           Hypotheses inherited from C06: `WriteOk`, `filled + 1 ≤ 2^64`.
-  R2_chain_heads           multipart tier: address = head slot; what C06 gives (value at the head
-                           whatever the chain length, other heads unchanged, free-list order).  The
-                           index model has no counterpart (its allocator takes ONE slot per value).
-  R3_composed_partial      PARTIAL: every value of the history goes to a single-slot tier
-                           (`PActOK`: `tierFor .. < 255`).  `R3_composed` is the full statement.
-                           Hypotheses: `PRunHyp` (C09's, stated on the physical column) and
-                           A-compress.  `WriteOk` is discharged by `C06_tier_writeOk`.
-  R4_record_refines        (stretch) for a transaction planned in any reachable state of the
+  R2_valuetable_refines_store   full, for every table (fixed-size tiers of `SIZES` AND the
+                           multipart table): reads, allocation order (head slot, then the
+                           continuation slots `Tier.resize` takes), insert / replace in place /
+                           remove commute with `absVT`, C06's `SlotInv` yields the index model's
+                           slot invariant (`AStoreInv`).  Hypotheses inherited from C06: `WriteOk`,
+                           `filled + parts ≤ 2^64`.
+  R2_chain_heads           what C06 gives at the head slot for any witnesses of its invariant.
+  R3_composed_full         FULL: `R3_composed` for all histories, values in the multipart tier
+                           255 included (the index model allocates chains slot by slot, M1; `RepL`
+                           for chains, M2; frame of the table operations, M3).
+                           Hypotheses: `PRunHypFull` (C09's, stated on the physical column) and
+                           A-compress.  `WriteOk` is discharged by `C06_tier_writeOk`, C06's
+                           `filled + parts ≤ 2^64` by the physical limits (`write_bound`).
+  R3_composed_partial      the former partial theorem (single-slot tiers), now a corollary.
+  R3_gap_closed            `R3_gap` (the histories `R3_composed_partial` left out) holds.
+  R4_record_refines(_full) (stretch) for a transaction planned in any reachable state of the
                            physical column: abstraction after = `applyRec` of the logical record
-                           `planRec` on the abstraction before.  Same restriction as R3.
-  MISSING for `R3_composed` (see the end of the file): an index model whose allocator takes
-  `numParts` slots for tier 255 (C09 would have to be re-proved for it) and `RepL` for chains.
+                           `planRec` on the abstraction before.
 -/
 import Pdb.Proofs.Refine3
 import Pdb.Props.C09
@@ -40,7 +43,8 @@ open Pdb.Gen Pdb.Refine
 /-! ## R1: index layer ⊑ logical table of a plain column -/
 
 /-- R1.  Any history of the index model that implements the P1 operations `txs.flatten` of one
-plain hash column (`Refine.Implements`: `Op.set k v ↦ .set k tier v` with any tier,
+plain hash column (`Refine.Implements`: `Op.set k v ↦ .set k tier ext v` with any tier and any
+number `ext` of continuation slots,
 `Op.deref k ↦ .del k`, reindex batches / enacted drops / reopen / relaunch interleaved anywhere)
 ends in a state whose abstraction `absCol` is P1's `spec`, on the key universe. -/
 theorem R1_index_refines_P1 (U : Index.Key → Prop) (cfg : Index.Cfg) (b0 : Nat)
@@ -56,9 +60,9 @@ theorem R1_index_refines_P1 (U : Index.Key → Prop) (cfg : Index.Cfg) (b0 : Nat
   exact this
 
 /-- every list of P1 operations has an implementation (the canonical one, no maintenance) -/
-theorem R1_translation_exists (tier : Index.Key → Index.Val → Nat)
-    (ops : List (Op Index.Key Index.Val)) : Implements ops (translate tier ops) :=
-  translate_implements tier ops
+theorem R1_translation_exists (tier ext : Index.Key → Index.Val → Nat)
+    (ops : List (Op Index.Key Index.Val)) : Implements ops (translate tier ext ops) :=
+  translate_implements tier ext ops
 
 /-- R1, one step: from a good state (`Index.Good`: IndexInv + SlotInv + Abs) one action moves the
 abstraction by its logical operations; reindex / enact / reopen / relaunch are stutter steps. -/
@@ -80,7 +84,7 @@ def exTxs : List (List (Op Index.Key Index.Val)) :=
    [.set Index.exK2 "b2"]]
 
 theorem exImpl : Implements exTxs.flatten Index.exActs :=
-  .set _ 0 _ (.set _ 0 _ (.set _ 5 _ (.set _ 7 _ (.deref _ (.relaunch (.set _ 3 _ (.enact (.reopen .nil))))))))
+  .set _ 0 0 _ (.set _ 0 0 _ (.set _ 5 0 _ (.set _ 7 0 _ (.deref _ (.relaunch (.set _ 3 0 _ (.enact (.reopen .nil))))))))
 
 example : absCol Index.exFinal Index.exK1 = some ("a2", 1) ∧
     absCol Index.exFinal Index.exK2 = some ("b2", 1) ∧ absCol Index.exFinal Index.exK3 = some ("c", 1) :=
@@ -91,8 +95,8 @@ example : absCol Index.exFinal Index.exK1 = some ("a2", 1) ∧
    by rw [R1_index_refines_P1 Index.exU _ 16 Index.exActs Index.exHyp Index.exFinal
       (Index.runChecked_sound _ _ _ Index.exRun).1 exTxs exImpl Index.exK3 (Or.inr (Or.inr rfl))]; decide⟩
 
-example := R1_translation_exists (fun _ _ => 3) exTxs.flatten
-example : (translate (fun _ _ => 3) exTxs.flatten).length = 6 := by decide
+example := R1_translation_exists (fun _ _ => 3) (fun _ _ => 0) exTxs.flatten
+example : (translate (fun _ _ => 3) (fun _ _ => 0) exTxs.flatten).length = 6 := by decide
 /- one step from the reachable state `exFinal` (C09's `exGood`): removing `exK1` -/
 example (s' : Index.Col) (h : Index.stepA Index.exFinal (.del Index.exK1) = .ok s')
     (hB : Index.Bounded s') :=
@@ -102,42 +106,60 @@ example : (Index.runChecked Index.exFinal [.del Index.exK1]).isSome = true := by
 
 /-! ## R2: byte-level value table ⊑ abstract value store -/
 
-/-- R2 (single-slot tables).  If the byte-level table `t` represents the store `A` of the index
-model (`RepL`: every slot reads as the cell, same fill mark, C06's `SlotInv` with `A`'s free list
-and the live slots as one-slot chains), then
+/-- R2 (every table: fixed-size tier or multipart).  If the byte-level table `t` represents the
+store `A` of the index model (`RepL`: C06's `SlotInv` with `A`'s free list and the live chains
+`L`; the cell at the head of every chain is what a keyed read returns, the recorded continuation
+slots are the rest of the chain; no cell elsewhere; same fill mark), then
   (read)     a keyed read succeeds exactly where the cell holds that tail, and returns the cell;
   (insert)   `write_insert_plan` succeeds, returns the slot `AStore.alloc` returns (head of the
-             free list, else the fill mark) and the new table represents `A.insert`;
-  (replace)  `write_replace_plan` at a live slot keeps address and allocator, represents `A.replace`;
-  (remove)   `write_remove_plan` at a live slot represents `A.remove` (slot pushed on the free list);
+             free list, else the fill mark), the other parts go to the slots `Tier.resize` takes
+             (`parts - 1` continuation slots) and the new table represents `A.insert`;
+  (live)     a live cell is the head of a listed chain, whose other slots are the recorded
+             continuation slots;
+  (replace)  `write_replace_plan` at the head of a live chain keeps the address, represents
+             `A.replace` (the chain is cut or extended by `Tier.resize`);
+  (remove)   `write_remove_plan` at the head of a live chain represents `A.remove` (the whole
+             chain pushed on the free list, last part on top);
   (inv)      `A` satisfies the slot invariant of the index model. -/
-theorem R2_valuetable_refines_store (t : ValueTable.VT) (A : AStore) (live : List Nat)
-    (h : RepL t A live) :
+theorem R2_valuetable_refines_store (t : ValueTable.VT) (A : AStore) (L : List (List Nat))
+    (h : RepL t A L) :
     (∀ tl i v c, (∃ n, ValueTable.readChain t (.partialKey tl) i = .ok (some (v, c, n))) ↔
       A.cell i = some (tl, v, c)) ∧
-    (∀ tl v c, ValueTable.WriteOk t (.partialKey tl) v → t.filled + 1 ≤ 2 ^ 64 →
+    (∀ tl v c, ValueTable.WriteOk t (.partialKey tl) v →
+      t.filled + ValueTable.numParts t (.partialKey tl) v ≤ 2 ^ 64 →
       ∃ r, ValueTable.writeChain t (.partialKey tl) v none c = .ok r ∧
-        r.addr = (A.insert (tl, v, c)).1 ∧ RepL r.table (A.insert (tl, v, c)).2 (r.addr :: live)) ∧
-    (∀ a, (A.cell a).isSome = true → ∀ tl v c, ValueTable.WriteOk t (.partialKey tl) v →
-      t.filled + 1 ≤ 2 ^ 64 →
-      ∃ r, ValueTable.writeChain t (.partialKey tl) v (some a) c = .ok r ∧ r.addr = a ∧
-        RepL r.table (A.replace a (tl, v, c)) live) ∧
-    (∀ a, (A.cell a).isSome = true → t.filled ≤ 2 ^ 64 →
-      ∃ t', ValueTable.removePlan t a = .ok (t', [a]) ∧ RepL t' (A.remove a) (live.erase a)) ∧
+        r.addr = (A.insert (tl, v, c) (ValueTable.numParts t (.partialKey tl) v - 1)).1 ∧
+        RepL r.table (A.insert (tl, v, c) (ValueTable.numParts t (.partialKey tl) v - 1)).2
+          (r.chain :: L)) ∧
+    (∀ a, (A.cell a).isSome = true →
+      ∃ c0 ∈ L, c0.headD 0 = a ∧ c0 = a :: Index.chainRest A.tier.chains a) ∧
+    (∀ c0 ∈ L, ∀ tl v c, ValueTable.WriteOk t (.partialKey tl) v →
+      t.filled + ValueTable.numParts t (.partialKey tl) v ≤ 2 ^ 64 →
+      ∃ r, ValueTable.writeChain t (.partialKey tl) v (some (c0.headD 0)) c = .ok r ∧
+        r.addr = c0.headD 0 ∧
+        RepL r.table (A.replace (c0.headD 0) (tl, v, c)
+          (ValueTable.numParts t (.partialKey tl) v - 1)) (r.chain :: L.erase c0)) ∧
+    (∀ c0 ∈ L, t.filled ≤ 2 ^ 64 →
+      ∃ t', ValueTable.removePlan t (c0.headD 0) = .ok (t', c0) ∧
+        RepL t' (A.remove (c0.headD 0)) (L.erase c0)) ∧
     AStoreInv A := by
-  refine ⟨fun tl i v c => h.read tl i v c, fun tl v c hok hb => ?_, fun a ha tl v c hok hb => ?_,
-    fun a ha hb => ?_, h.storeInv⟩
+  refine ⟨fun tl i v c => h.read tl i v c, fun tl v c hok hb => ?_, fun a ha => ?_,
+    fun c0 hc0 tl v c hok hb => ?_, fun c0 hc0 hb => ?_, h.storeInv⟩
   · obtain ⟨r, h1, h2, h3, _⟩ := h.insert tl v c hok hb
     exact ⟨r, h1, h2, h3⟩
-  · obtain ⟨r, h1, h2, h3, _⟩ := h.replace a ((h.liveIff a).mpr ha) tl v c hok hb
+  · obtain ⟨c0, hc0, e⟩ := h.live a ha
+    have hc := h.chain_eq c0 hc0
+    rw [e] at hc
+    exact ⟨c0, hc0, e, hc⟩
+  · obtain ⟨r, h1, h2, h3, _⟩ := h.replace c0 hc0 tl v c hok hb
     exact ⟨r, h1, h2, h3⟩
-  · obtain ⟨t', h1, h2, _⟩ := h.remove a ((h.liveIff a).mpr ha) hb
+  · obtain ⟨t', h1, h2, _⟩ := h.remove c0 hc0 hb
     exact ⟨t', h1, h2⟩
 
-/-- the empty table of a fixed-size tier represents the empty store -/
-theorem R2_empty (es : Nat) (rc : Bool) :
-    RepL (ValueTable.VT.empty es false rc) ⟨fun _ => none, Index.Tier.init⟩ [] :=
-  RepL.empty es rc
+/-- the empty table (a fixed-size tier, or the multipart table) represents the empty store -/
+theorem R2_empty (es : Nat) (mp rc : Bool) :
+    RepL (ValueTable.VT.empty es mp rc) ⟨fun _ => none, Index.Tier.init⟩ [] :=
+  RepL.empty es mp rc
 
 /-- R2 for chains (multipart tier 255; holds for every table).  Address = head slot of the chain.
 With C06's `SlotInv t F L`:
@@ -193,10 +215,11 @@ def exR2 : Option (ValueTable.VT × List Nat) :=
 
 /-- the same history on the abstract store of the index model -/
 def exA : AStore :=
-  (((((⟨fun _ => none, Index.Tier.init⟩ : AStore).insert (exTl, [1, 2, 3], false)).2.insert
-    (exTl, [4], false)).2.remove 1).insert (exTl, [5, 6], true)).2
+  (((((⟨fun _ => none, Index.Tier.init⟩ : AStore).insert (exTl, [1, 2, 3], false) 0).2.insert
+    (exTl, [4], false) 0).2.remove 1).insert (exTl, [5, 6], true) 0).2
 
-example := R2_valuetable_refines_store _ _ _ (R2_empty 32 false)
+example := R2_valuetable_refines_store _ _ _ (R2_empty 32 false false)
+example := R2_valuetable_refines_store _ _ _ (R2_empty Gen.MULTIPART_ENTRY_SIZE true false)
 example : ValueTable.WriteOk (ValueTable.VT.empty 32 false false) (.partialKey exTl) [1, 2, 3] ∧
     (ValueTable.VT.empty 32 false false).filled + 1 ≤ 2 ^ 64 :=
   ⟨⟨by decide, by decide, by decide, by decide⟩, by decide⟩
@@ -210,7 +233,7 @@ example : (exR2.map (·.2)) = some [1, 2, 1] ∧
     (exA.cell 1 = some (exTl, [5, 6], true) ∧ exA.cell 2 = some (exTl, [4], false) ∧
       exA.cell 3 = none) ∧
     (exR2.map (fun x => (x.1.filled, x.1.lastRemoved))) = some (3, 0) ∧
-    (exA.tier.filled, exA.tier.free) = (3, []) :=
+    (exA.tier.filled, exA.tier.free, exA.tier.chains) = (3, [], []) :=
   ⟨by decide, by decide, by decide, by decide, by decide⟩
 
 /- chains: a 5000-byte value in the multipart table of C06's example takes two slots, one cell -/
@@ -220,14 +243,21 @@ example : ValueTable.WriteOk ValueTable.exM ValueTable.exKey (List.replicate 500
     ValueTable.numParts ValueTable.exM ValueTable.exKey (List.replicate 5000 1) = 2 :=
   ⟨⟨by decide, by decide, by decide, by decide⟩, by decide, by decide⟩
 example := (R2_chain_heads ValueTable.exM []).1 (List.replicate 26 7) (List.replicate 5000 1) false []
+/- the same insert on the abstract store of the index model: head slot 1, continuation slot 2
+recorded in `Tier.chains`, fill mark 3 -/
+example := (R2_valuetable_refines_store _ _ _ (R2_empty Gen.MULTIPART_ENTRY_SIZE true true)).2.1
+  (List.replicate 26 7) (List.replicate 5000 1) false
+example : ((⟨fun _ => none, Index.Tier.init⟩ : AStore).insert
+      (List.replicate 26 7, List.replicate 5000 1, false) 1).1 = 1 ∧
+    (((⟨fun _ => none, Index.Tier.init⟩ : AStore).insert
+      (List.replicate 26 7, List.replicate 5000 1, false) 1).2.tier.filled,
+     ((⟨fun _ => none, Index.Tier.init⟩ : AStore).insert
+      (List.replicate 26 7, List.replicate 5000 1, false) 1).2.tier.free,
+     ((⟨fun _ => none, Index.Tier.init⟩ : AStore).insert
+      (List.replicate 26 7, List.replicate 5000 1, false) 1).2.tier.chains) = (3, [], [(1, [2])]) :=
+  ⟨by decide, by decide⟩
 
 /-! ## R3: the physical column = Pdb.spec -/
-
-/-- keys of the history lie in `U` (no restriction on the size tier) -/
-def PActKeys (U : Index.Key → Prop) : PAction → Prop
-  | .set k _ => U k
-  | .del k => U k
-  | _ => True
 
 /-- R3, full statement: a plain hash column whose index is the page model and whose value tables
 are byte-level `VT`s returns, after every history of sets / removals / reindex batches / enacted
@@ -246,10 +276,40 @@ def R3_composed : Prop :=
     acts.flatMap PAction.ops = txs.flatten → U k →
     (pGet decomp p' k).map (fun v => (v, 1)) = spec (fun _ => Kind.plain) txs k
 
-/-- R3, proved part: the same statement with the extra hypothesis, inside `PRunHyp.actsOK`, that
-every value of the history is stored in a single-slot tier (`tierFor .. < 255`; values whose
-stored form, key tail included, exceeds the largest fixed entry size go to the multipart tier and
-are excluded). -/
+/-- R3, FULL: `R3_composed` holds - for every history, whatever tiers `tierFor` selects, values
+stored as chains in the multipart tier 255 included.  (`PActKeys`: keys in `U`, nothing about the
+values.)  The proof is the forward simulation `sim_run` of the physical column by the index model
+of C09 (whose allocator takes a head slot and `parts - 1` continuation slots and releases whole
+chains), R2 for chains (`RepL`), and R1. -/
+theorem R3_composed_full : R3_composed := by
+  intro cmp decomp thr U cfg b0 acts p' txs k hA hU hex hgrow hbits hkeys hb hrun hops hk
+  have := run_abs decomp hA hU acts _ _ p' _ (init_sim cmp thr cfg b0)
+    (Index.init_good U cfg b0 hbits.1 hbits.2) hex hgrow hkeys
+    (init_pbounded cfg b0 hbits.2) hb hrun k hk
+  have e0 : pAbs decomp (PCol.init cfg b0) k = none := by
+    rw [pAbs_eq decomp hA (init_sim cmp thr cfg b0) hU
+      (Index.init_good U cfg b0 hbits.1 hbits.2) k hk]
+    rfl
+  simp only [pAbs] at this
+  rw [this, hops, spec]
+  exact applyOps_congr_key _ _ _ _ k e0
+
+/-- R3 with the hypotheses bundled (`PRunHypFull`) -/
+theorem R3_composed_full' (cmp : ValueTable.Bytes → ValueTable.Bytes)
+    (decomp : ValueTable.Bytes → Option ValueTable.Bytes) (thr : Nat) (U : Index.Key → Prop)
+    (cfg : Index.Cfg) (b0 : Nat) (acts : List PAction)
+    (hA : ∀ v, decomp (cmp v) = some v)
+    (h : PRunHypFull cmp thr U cfg b0 acts) (p' : PCol)
+    (hrun : pRun cmp thr (PCol.init cfg b0) acts = .ok p')
+    (txs : List (List (Op Index.Key ValueTable.Bytes)))
+    (hops : acts.flatMap PAction.ops = txs.flatten) (k : Index.Key) (hk : U k) :
+    (pGet decomp p' k).map (fun v => (v, 1)) = spec (fun _ => Kind.plain) txs k :=
+  R3_composed_full cmp decomp thr U cfg b0 acts p' txs k hA h.univ h.exact h.grow h.bits h.keys
+    h.bounded hrun hops hk
+
+/-- R3, the former partial theorem: the same statement with the extra hypothesis, inside
+`PRunHyp.actsOK`, that every value of the history is stored in a single-slot tier
+(`tierFor .. < 255`).  Now a corollary of `R3_composed_full`. -/
 theorem R3_composed_partial (cmp : ValueTable.Bytes → ValueTable.Bytes)
     (decomp : ValueTable.Bytes → Option ValueTable.Bytes) (thr : Nat) (U : Index.Key → Prop)
     (cfg : Index.Cfg) (b0 : Nat) (acts : List PAction)
@@ -258,28 +318,29 @@ theorem R3_composed_partial (cmp : ValueTable.Bytes → ValueTable.Bytes)
     (hrun : pRun cmp thr (PCol.init cfg b0) acts = .ok p')
     (txs : List (List (Op Index.Key ValueTable.Bytes)))
     (hops : acts.flatMap PAction.ops = txs.flatten) (k : Index.Key) (hk : U k) :
-    (pGet decomp p' k).map (fun v => (v, 1)) = spec (fun _ => Kind.plain) txs k := by
-  have := run_abs decomp hA h.univ acts _ _ p' _ (init_sim cmp thr cfg b0)
-    (Index.init_good U cfg b0 h.bits.1 h.bits.2) h.exact h.grow h.actsOK
-    (init_pbounded cfg b0 h.bits.2) h.bounded hrun k hk
-  have e0 : pAbs decomp (PCol.init cfg b0) k = none := by
-    rw [pAbs_eq decomp hA (init_sim cmp thr cfg b0) h.univ
-      (Index.init_good U cfg b0 h.bits.1 h.bits.2) k hk]
-    rfl
-  simp only [pAbs] at this
-  rw [this, hops, spec]
-  exact applyOps_congr_key _ _ _ _ k e0
+    (pGet decomp p' k).map (fun v => (v, 1)) = spec (fun _ => Kind.plain) txs k :=
+  R3_composed_full' cmp decomp thr U cfg b0 acts hA h.full p' hrun txs hops k hk
 
 /-- the physical run of R3 never panics, never fails in a value table and is, step by step, the
-mirrored run of the index model (so every C09 / C14 invariant holds of the state it represents) -/
-theorem R3_simulation (cmp : ValueTable.Bytes → ValueTable.Bytes) (thr : Nat)
+mirrored run of the index model (so every C09 / C14 invariant holds of the state it represents);
+all histories, multipart values included -/
+theorem R3_simulation_full (cmp : ValueTable.Bytes → ValueTable.Bytes) (thr : Nat)
     (U : Index.Key → Prop) (cfg : Index.Cfg) (b0 : Nat) (acts : List PAction)
-    (h : PRunHyp cmp thr U cfg b0 acts) (p' : PCol)
+    (h : PRunHypFull cmp thr U cfg b0 acts) (p' : PCol)
     (hrun : pRun cmp thr (PCol.init cfg b0) acts = .ok p') :
     ∃ s' m, Index.runA (Index.Col.init cfg b0) (acts.map (mirror cmp thr)) = .ok s' ∧
       Sim cmp thr p' s' ∧ Index.IdxInv U s' ∧ Index.SlotInv s' ∧ Index.Abs U s' m := by
   obtain ⟨s', m, h1, h2, _, h4⟩ := reach_sim h p' hrun
   exact ⟨s', m, h4, h1, h2.idx, h2.slots, h2.abs⟩
+
+/-- the same under the hypotheses of the former partial theorem -/
+theorem R3_simulation (cmp : ValueTable.Bytes → ValueTable.Bytes) (thr : Nat)
+    (U : Index.Key → Prop) (cfg : Index.Cfg) (b0 : Nat) (acts : List PAction)
+    (h : PRunHyp cmp thr U cfg b0 acts) (p' : PCol)
+    (hrun : pRun cmp thr (PCol.init cfg b0) acts = .ok p') :
+    ∃ s' m, Index.runA (Index.Col.init cfg b0) (acts.map (mirror cmp thr)) = .ok s' ∧
+      Sim cmp thr p' s' ∧ Index.IdxInv U s' ∧ Index.SlotInv s' ∧ Index.Abs U s' m :=
+  R3_simulation_full cmp thr U cfg b0 acts h.full p' hrun
 
 /-! ### R3 / R4: a concrete history of the physical column
 
@@ -376,7 +437,27 @@ planning and enacting the physical writes of one more transaction (`txActs`: its
 with whatever maintenance in between) gives a state whose abstraction is `applyRec` of P1's
 logical record `planRec` of the transaction, applied to the abstraction of `p`.  Hence P1's
 theorems about records (overlay = newest image, idempotent replay, crash prefixes of RECORDS)
-speak about physical states at record boundaries.  Same single-slot restriction as R3. -/
+speak about physical states at record boundaries.  All histories (multipart values included). -/
+theorem R4_record_refines_full (cmp : ValueTable.Bytes → ValueTable.Bytes)
+    (decomp : ValueTable.Bytes → Option ValueTable.Bytes) (thr : Nat) (U : Index.Key → Prop)
+    (cfg : Index.Cfg) (b0 : Nat) (hist txActs : List PAction)
+    (hA : ∀ v, decomp (cmp v) = some v)
+    (h : PRunHypFull cmp thr U cfg b0 (hist ++ txActs)) (p p' : PCol)
+    (hrun1 : pRun cmp thr (PCol.init cfg b0) hist = .ok p)
+    (hrun2 : pRun cmp thr p txActs = .ok p') (k : Index.Key) (hk : U k) :
+    pAbs decomp p' k =
+      applyRec (pAbs decomp p)
+        (planRec (fun _ => Kind.plain) (pAbs decomp p) (txActs.flatMap PAction.ops)) k := by
+  obtain ⟨hb1, hb2, hb3⟩ := pAllBounded_append cmp thr hist txActs _ p h.bounded hrun1
+  have h1 : PRunHypFull cmp thr U cfg b0 hist :=
+    ⟨h.univ, h.exact, h.grow, h.bits, fun a ha => h.keys a (List.mem_append_left _ ha), hb1⟩
+  obtain ⟨s, m, hS, hG, hc, _⟩ := reach_sim h1 p hrun1
+  rw [planRec_apply]
+  exact run_abs decomp hA h.univ txActs p s p' m hS hG (by rw [hc]; exact h.exact)
+    (by rw [hc]; exact h.grow) (fun a ha => h.keys a (List.mem_append_right _ ha))
+    (hb3 (init_pbounded cfg b0 h.bits.2)) hb2 hrun2 k hk
+
+/-- R4 under the hypotheses of the former partial theorem (single-slot tiers). -/
 theorem R4_record_refines (cmp : ValueTable.Bytes → ValueTable.Bytes)
     (decomp : ValueTable.Bytes → Option ValueTable.Bytes) (thr : Nat) (U : Index.Key → Prop)
     (cfg : Index.Cfg) (b0 : Nat) (hist txActs : List PAction)
@@ -386,15 +467,8 @@ theorem R4_record_refines (cmp : ValueTable.Bytes → ValueTable.Bytes)
     (hrun2 : pRun cmp thr p txActs = .ok p') (k : Index.Key) (hk : U k) :
     pAbs decomp p' k =
       applyRec (pAbs decomp p)
-        (planRec (fun _ => Kind.plain) (pAbs decomp p) (txActs.flatMap PAction.ops)) k := by
-  obtain ⟨hb1, hb2, hb3⟩ := pAllBounded_append cmp thr hist txActs _ p h.bounded hrun1
-  have h1 : PRunHyp cmp thr U cfg b0 hist :=
-    ⟨h.univ, h.exact, h.grow, h.bits, fun a ha => h.actsOK a (List.mem_append_left _ ha), hb1⟩
-  obtain ⟨s, m, hS, hG, hc, _⟩ := reach_sim h1 p hrun1
-  rw [planRec_apply]
-  exact run_abs decomp hA h.univ txActs p s p' m hS hG (by rw [hc]; exact h.exact)
-    (by rw [hc]; exact h.grow) (fun a ha => h.actsOK a (List.mem_append_right _ ha))
-    (hb3 (init_pbounded cfg b0 h.bits.2)) hb2 hrun2 k hk
+        (planRec (fun _ => Kind.plain) (pAbs decomp p) (txActs.flatMap PAction.ops)) k :=
+  R4_record_refines_full cmp decomp thr U cfg b0 hist txActs hA h.full p p' hrun1 hrun2 k hk
 
 /-- R4 at the index layer (no restriction on tiers: this is C09's model). -/
 theorem R4_record_refines_index {U : Index.Key → Prop} {s s' : Index.Col}
@@ -428,7 +502,7 @@ example : planRec (fun _ => Kind.plain) (pAbs exDecompR exPMid) (exTx.flatMap PA
 example : pAbs exDecompR exPMid Index.exK3 = some (List.replicate 100 7, 1) ∧
     pAbs exDecompR exPFinal Index.exK3 = none := by decide +kernel
 
-/- R4 at the index layer: the last transaction of C09's history (`.set exK2 3 "b2"`, then enact
+/- R4 at the index layer: the last transaction of C09's history (`.set exK2 3 0 "b2"`, then enact
 and reopen) from the state reached by the first six actions -/
 def exIMid : Index.Col :=
   (Index.runChecked (Index.Col.init ⟨true, true⟩ 16) (Index.exActs.take 6)).getD
@@ -457,26 +531,28 @@ theorem exIGood : Index.Good Index.exU exIMid (Index.spec (fun _ => none) (Index
     (Index.runChecked_sound _ _ _ exIRun1).2 (Index.runChecked_sound _ _ _ exIRun1).1
 
 example := R4_record_refines_index Index.exU_univ exIGood (by decide +kernel) (by decide +kernel)
-  [.set Index.exK2 "b2"] (Index.exActs.drop 6) (.set _ 3 _ (.enact (.reopen .nil)))
+  [.set Index.exK2 "b2"] (Index.exActs.drop 6) (.set _ 3 0 _ (.enact (.reopen .nil)))
   (fun a ha => Index.exActs_ok a (List.mem_of_mem_drop ha))
   (Index.runChecked_sound _ _ _ exIRun2).2 (Index.runChecked_sound _ _ _ exIRun2).1 Index.exK2
   (Or.inr (Or.inl rfl))
 example : absCol exIMid Index.exK2 = none ∧ absCol exIFin Index.exK2 = some ("b2", 1) := by
   decide +kernel
 
-/-! ## what is missing for the full `R3_composed`
+/-! ## the gap `R3_composed_partial` left, and how it was closed
 
-Exactly the histories in which some value goes to the multipart tier 255 (`R3_gap`).  To close
-the gap one needs
-  (M1) an index model whose allocator takes `numParts` slots (and `release` returns the whole
-       chain) for tier 255 - `Index.Col.alloc / release` take ONE slot, so the addresses the
-       index model predicts diverge from the byte level after the first multipart value - and
-       C09 (`write_ok`, `SlotInv.alloc_set`, `SlotInv.free_val`) re-proved for it;
-  (M2) `RepL` for chains: cells at head slots only, live = list of chains (the per-operation
-       facts are `R2_chain_heads`);
-  (M3) the frame "slots outside the written / cleared chains are untouched" for multipart
-       tables (`writeChain_spec` states it only for the slots of the other live chains; needed
-       for `absVT` at stale index entries, cf. `RepL.blank`). -/
+`R3_gap` = exactly the histories in which some value goes to the multipart tier 255.  What was
+needed, and where it is now:
+  (M1) an index model whose allocator takes `parts` slots for a chain and whose `release` returns
+       the whole chain: `Index.Col.alloc` (head slot) + `Index.Col.resize` / `Tier.resize`
+       (continuation slots, `Tier.chains`) + `Index.Col.release` (Pdb/Model/Index.lean); C09 / C14
+       re-proved for it (`SlotInv` with `Col.dead` = free list ++ continuation slots,
+       Pdb/Proofs/C09Slots.lean, C09Write.lean); the compiled model agrees with the real tables on
+       fill mark and free-list length of tier 255 (harness `c09`);
+  (M2) `RepL` for chains (cells at head slots only; live = list of chains), its three operations
+       (Pdb/Proofs/Refine2.lean, Refine4.lean);
+  (M3) the frame "slots outside the written / cleared chains are untouched" for every table
+       (`writeChain_struct`, `removePlan_frame`) and "the parts after the head are not chain
+       heads" (`Written_tail_plain`), so that `absVT` at stale index entries is `none`. -/
 
 /-- `R3_composed` restricted to histories with at least one value in the multipart tier -/
 def R3_gap : Prop :=
@@ -492,6 +568,11 @@ def R3_gap : Prop :=
     acts.flatMap PAction.ops = txs.flatten → U k →
     (pGet decomp p' k).map (fun v => (v, 1)) = spec (fun _ => Kind.plain) txs k
 
+/-- the gap is closed -/
+theorem R3_gap_closed : R3_gap :=
+  fun cmp decomp thr U cfg b0 acts p' txs k _ hA hU hex hgrow hbits hkeys hb hrun hops hk =>
+    R3_composed_full cmp decomp thr U cfg b0 acts p' txs k hA hU hex hgrow hbits hkeys hb hrun hops hk
+
 /-- the partial theorem covers everything else -/
 theorem R3_composed_of_gap (hgap : R3_gap) : R3_composed := by
   intro cmp decomp thr U cfg b0 acts p' txs k hA hU hex hgrow hbits hkeys hb hrun hops hk
@@ -500,9 +581,78 @@ theorem R3_composed_of_gap (hgap : R3_gap) : R3_composed := by
       hrun txs hops k hk
   · exact hgap cmp decomp thr U cfg b0 acts p' txs k hall hA hU hex hgrow hbits hkeys hb hrun hops hk
 
-/- the gap is not empty: a 40000-byte value is sent to tier 255 -/
+/-! ### non-vacuity of the full theorem: a history with values in the multipart tier 255
+
+A 40000-byte value (a chain of 10 parts, slots 1..10 of the multipart table) and a one-slot
+value; the big value replaced IN PLACE by a 33000-byte one (9 parts: the tenth slot is freed);
+the small value removed; enact, reopen. -/
+
+/- the values are sent to tier 255 -/
 set_option maxRecDepth 100000 in
-example : (ValueTable.tierFor exCmpR 0 false (tkey Index.exK1) (List.replicate 40000 3)).2 = 255 := by
+example : (ValueTable.tierFor exCmpR 0 false (tkey Index.exK1) (List.replicate 40000 3)).2 = 255 ∧
+    (ValueTable.tierFor exCmpR 0 false (tkey Index.exK1) (List.replicate 33000 5)).2 = 255 := by
+  decide +kernel
+
+def exHistM : List PAction :=
+  [.set Index.exK1 (List.replicate 40000 3), .set Index.exK2 [4],
+   .set Index.exK1 (List.replicate 33000 5), .del Index.exK2, .enact, .reopen]
+
+def exPFinalM : PCol :=
+  (pRunChecked exCmpR 0 (PCol.init ⟨true, true⟩ 16) exHistM).getD (PCol.init ⟨true, true⟩ 16)
+
+set_option maxRecDepth 1000000 in
+theorem exPRunM : pRunChecked exCmpR 0 (PCol.init ⟨true, true⟩ 16) exHistM = some exPFinalM := by
+  have : (pRunChecked exCmpR 0 (PCol.init ⟨true, true⟩ 16) exHistM).isSome = true := by decide +kernel
+  unfold exPFinalM
+  cases h : pRunChecked exCmpR 0 (PCol.init ⟨true, true⟩ 16) exHistM with
+  | none => rw [h] at this; cases this
+  | some s => rfl
+
+theorem exPKeysM : ∀ a ∈ exHistM, PActKeys Index.exU a := by
+  intro a ha
+  unfold exHistM at ha
+  rcases List.mem_cons.1 ha with h | ha
+  · subst h; exact Or.inl rfl
+  rcases List.mem_cons.1 ha with h | ha
+  · subst h; exact Or.inr (Or.inl rfl)
+  rcases List.mem_cons.1 ha with h | ha
+  · subst h; exact Or.inl rfl
+  rcases List.mem_cons.1 ha with h | ha
+  · subst h; exact Or.inr (Or.inl rfl)
+  rcases List.mem_cons.1 ha with h | ha
+  · subst h; trivial
+  rcases List.mem_cons.1 ha with h | ha
+  · subst h; trivial
+  · cases ha
+
+theorem exPHypM : PRunHypFull exCmpR 0 Index.exU ⟨true, true⟩ 16 exHistM :=
+  ⟨exPUniv, rfl, rfl, ⟨by decide, by decide⟩, exPKeysM, (pRunChecked_sound _ _ _ _ _ exPRunM).2⟩
+
+def exPTxsM : List (List (Op Index.Key ValueTable.Bytes)) :=
+  [[.set Index.exK1 (List.replicate 40000 3), .set Index.exK2 [4]],
+   [.set Index.exK1 (List.replicate 33000 5), .deref Index.exK2]]
+
+/- the hypotheses of `R3_composed` hold of this history ... -/
+example := R3_composed_full exCmpR exDecompR 0 Index.exU _ 16 exHistM exPFinalM exPTxsM Index.exK1
+  exCmpR_ok exPUniv rfl rfl ⟨by decide, by decide⟩ exPKeysM (pRunChecked_sound _ _ _ _ _ exPRunM).2
+  (pRunChecked_sound _ _ _ _ _ exPRunM).1 rfl (Or.inl rfl)
+example := R3_simulation_full exCmpR 0 Index.exU _ 16 _ exPHypM exPFinalM (pRunChecked_sound _ _ _ _ _ exPRunM).1
+/- ... it is one of the histories of `R3_gap` (not covered by the former partial theorem) ... -/
+set_option maxRecDepth 100000 in
+example : ¬ ∀ a ∈ exHistM, PActOK exCmpR 0 Index.exU a := by
+  intro h
+  have h1 : PActOK exCmpR 0 Index.exU (.set Index.exK1 (List.replicate 40000 3)) :=
+    h _ (by unfold exHistM; exact List.Mem.head _)
+  have h2 : ¬ (ValueTable.tierFor exCmpR 0 false (tkey Index.exK1) (List.replicate 40000 3)).2 < 255 := by
+    decide +kernel
+  exact h2 h1.2
+/- ... and the conclusion is about a real chain: the bytes return the 33000-byte value (read
+through its 9 parts), the multipart table has used 10 slots and the slot freed by the in-place
+replacement is the head of its free list -/
+set_option maxRecDepth 1000000 in
+example : (pGet exDecompR exPFinalM Index.exK1 == some (List.replicate 33000 5) &&
+    pGet exDecompR exPFinalM Index.exK2 == none &&
+    (exPFinalM.vt 255).filled == 11 && (exPFinalM.vt 255).lastRemoved == 10) = true := by
   decide +kernel
 
 end Pdb
@@ -513,8 +663,13 @@ end Pdb
 #print axioms Pdb.R2_valuetable_refines_store
 #print axioms Pdb.R2_empty
 #print axioms Pdb.R2_chain_heads
+#print axioms Pdb.R3_composed_full
+#print axioms Pdb.R3_composed_full'
 #print axioms Pdb.R3_composed_partial
+#print axioms Pdb.R3_simulation_full
 #print axioms Pdb.R3_simulation
+#print axioms Pdb.R3_gap_closed
 #print axioms Pdb.R3_composed_of_gap
+#print axioms Pdb.R4_record_refines_full
 #print axioms Pdb.R4_record_refines
 #print axioms Pdb.R4_record_refines_index
